@@ -16,7 +16,11 @@
      record of its own and follows the successful take without a schedule point in between: the
      model's SUnpark step is taken with the take;
    * the receiver's return from thread::park() and the worker's resumption of the scheduled coroutine
-     show as the receiver's next queue access: the model's RPark / Worker step is taken there. *)
+     show as the receiver's next queue access: the model's RPark / Worker / KRun step is taken there; a
+     return from park with no token in the model (nobody of the channel unparked the thread: the scenario's
+     noise thread did, MAYV_SPUR) is the model's spurious return `Spur`;
+   * recv.ret with k = 5 is logged by the scenario when the Cancel panic unwinds out of recv(): the model
+     takes RCan at the cancellation point it is at (KStore / RSusp scheduled / KRun). *)
 From Coq Require Import List ZArith Bool Arith Lia.
 Import ListNotations.
 Require Import MayV.Sync.ChanSpscModel.
@@ -35,7 +39,7 @@ Definition set_qh (x : aux) o := {| started := started x; ract := ract x; sact :
 Definition rpc_eqb (x y : rpc) : bool :=
   match x, y with
   | RIdle, RIdle | RPop1, RPop1 | RChk, RChk | RPop2, RPop2 | RStore, RStore | RClear, RClear | RPark, RPark
-  | KStore, KStore | KEmpty, KEmpty | KChans, KChans | KTake, KTake | RSusp, RSusp | RPd0, RPd0 | RPd1, RPd1 => true
+  | KStore, KStore | KEmpty, KEmpty | KChans, KChans | KTake, KTake | KRun, KRun | RSusp, RSusp | RPd0, RPd0 | RPd1, RPd1 => true
   | _, _ => false end.
 Definition spc_eqb (x y : spc) : bool :=
   match x, y with
@@ -67,7 +71,17 @@ Definition is_r (x : aux) (a : nat) := negb (Nat.eqb a 0) && Nat.eqb (ract x) a.
 Definition is_s (x : aux) (a : nat) := negb (Nat.eqb a 0) && Nat.eqb (sact x) a.
 (* the receiver's own continuation that the hooks do not record: return from thread::park / resumption by a worker *)
 Definition wake (s : st) : list action :=
-  match rp (R s) with RPark => [RStep] | RSusp => [Worker] | _ => [] end.
+  match rp (R s) with
+  | RPark => if ttok s then [RStep] else [Spur]     (* no token in the model: nobody of the channel unparked it - a spurious return *)
+  | RSusp => [Worker]
+  | KRun => [RStep]
+  | _ => [] end.
+(* the Cancel panic left the call (recv.ret with k = 5): the cancellation points of the coroutine receiver *)
+Definition cancel_acts (s : st) : option (list action) :=
+  match rp (R s) with
+  | KStore | KRun => Some [RCan]
+  | RSusp => if runq s then Some [RCan] else None
+  | _ => None end.
 Definition in_pop (s : st) : bool :=
   match steps s (wake s) with
   | Some s' => at_r s' RPop1 || at_r s' RPop2 || at_r s' RPd1
@@ -88,7 +102,12 @@ Definition plan_ev (s : st) (x : aux) (e : list Z) : option plan :=
     | 7 => guard (is_s x a && at_s s SIdle && negb (salive (Sn s))) (skip (set_sact x O))
     | 8 => guard (Nat.eqb (ract x) 0 && negb (is_s x a)) (ok [TryRecv] (set_ract x a))
     | 10 => guard (Nat.eqb (ract x) 0 && negb (is_s x a)) (ok [Recv (zb o)] (set_ract x a))
-    | 9 | 11 => guard (is_r x a && at_r s RIdle && res_is (rres (R s)) o v) (skip (set_ract x O))
+    | 9 => guard (is_r x a && at_r s RIdle && res_is (rres (R s)) o v) (skip (set_ract x O))
+    | 11 => if Z.eqb o 5
+            then guard (is_r x a) (match cancel_acts s with
+                                   | Some l => Some {| acts := l; post := fun s' => at_r s' RIdle; nxt := fun _ => set_ract x O |}
+                                   | None => None end)
+            else guard (is_r x a && at_r s RIdle && res_is (rres (R s)) o v) (skip (set_ract x O))
     | 14 => guard (Nat.eqb (ract x) 0 && negb (is_s x a)) (ok [DropPort] (set_ract x a))
     | 15 => guard (is_r x a && at_r s RIdle && negb (ralive (R s))) (skip (set_ract x O))
     (* ---- src/sync/spsc.rs ---- *)
